@@ -29,9 +29,9 @@ EXHAUSTIVE = {'quick': True, 'thorough': True}
 EXHAUSTIVE_NOTE = {'quick': 'all 5 050 columns (w<=3, n<=4) x {numeric, code/flag} through Encoder->Decoder and R reader',
                    'thorough': 'all 74 954 columns (w<=4, n<=4) x {numeric, code/flag}, plus R-written width variants'}
 REQUIRED = {'quick': {'columns_enc_dec': 10100, 'columns_r_written': 10000, 'transparency_cases': 310, 'wide_columns': 400,
-                      'string_columns': 200},
+                      'string_columns': 200, 'associated_width_cases': 36},
             'thorough': {'columns_enc_dec': 149908, 'columns_r_written': 140000, 'transparency_cases': 6200,
-                      'wide_columns': 10000, 'string_columns': 5000}}
+                      'wide_columns': 10000, 'string_columns': 5000, 'associated_width_cases': 36}}
 
 
 def anchors():
@@ -202,7 +202,41 @@ def same_value(a, b, meta):
     return False
 
 
+def associated_widths(ctx, enc, dec):
+    """the same element carries associated fields of two widths (204YYY ... 204000, 204ZZZ ...), narrower first: in one message
+    and in two consecutive messages of the long-lived coders.  The wider field holds, among others, the all-ones value of
+    the NARROWER width - an ordinary value there.  Compressed and uncompressed must both give back the values put in."""
+    for w1, w2 in ((2, 6), (3, 5), (2, 4), (4, 7), (1, 3)):
+        for elem, v in ((1001, [1, 2, 3]), (20011, [1, 2, 3]), (12001, [270.5, 271.5, 272.5])):
+            a1 = [0, 1, max(0, (1 << w1) - 2)]
+            a2 = [1, (1 << w1) - 1, (1 << w2) - 2]
+            whole = ([204000 + w1, 31021, elem, 204000, 204000 + w2, 31021, elem, 204000],
+                     [[1, a1[k], v[k], 1, a2[k], v[k]] for k in range(3)])
+            first = ([204000 + w1, 31021, elem, 204000], [[1, a1[k], v[k]] for k in range(3)])
+            second = ([204000 + w2, 31021, elem, 204000], [[1, a2[k], v[k]] for k in range(3)])
+            for name, (ids, rows) in (('one-message', whole), ('first-of-two', first), ('second-of-two', second)):
+                for comp in (True, False):
+                    spec = dict(part='assoc-widths', ids=ids, rows=rows, compressed=comp, widths=[w1, w2])
+                    fj = [['BUFR', 0, 4], [0, 0, 0, 0, 0, False, '0000000', 0, 0, 0, 33, 0, 2020, 1, 1, 0, 0, 0],
+                          [0, '00000000', 3, True, comp, '000000', ids], [0, '00000000', rows], ['7777']]
+                    ctx.count('associated_width_cases')
+                    ctx.evaluated(('assoc-widths', w1, w2, elem, name, comp), True)
+                    try:
+                        got = td_of(dec.process(enc.process(json.dumps(fj)).serialized_bytes)).decoded_values_all_subsets
+                    except Exception as e:
+                        ctx.violate('assoc-widths/exception:%s/%s' % (type(e).__name__, 'c' if comp else 'u'),
+                                    'associated fields of widths %d then %d on %06d raised %r' % (w1, w2, elem, e), spec, exc=e)
+                        continue
+                    got = [list(r) for r in got]
+                    if got != rows:
+                        ctx.violate('assoc-widths/values-differ/%s/%s' % ('c' if comp else 'u', name),
+                                    'associated fields of widths %d then %d on %06d (%s): decoded %r, put in %r'
+                                    % (w1, w2, elem, 'compressed' if comp else 'uncompressed', jsonable(got), rows), spec)
+
+
 def transparency(ctx, enc, dec):
+    if ctx.mine(0):
+        associated_widths(ctx, enc, dec)
     quota = 60 if ctx.quick else 1200
     k = 0
     while k < quota and ctx.more():
